@@ -90,3 +90,22 @@ class Probes:
                 interpreter.configuration       # reading the configuration while a step is under way is harmless
             log.append(('M', m.name, dict(m.data)))
         return on_meta
+
+
+def ticking_clock():
+    """A legitimate clock whose value grows with every reading (like UtcClock or a started SimulatedClock)."""
+    from sismic.clock import Clock
+
+    class TickingClock(Clock):
+        def __init__(self):
+            self._now = 0.0
+
+        @property
+        def time(self):
+            self._now += 0.125
+            return self._now
+
+        @time.setter
+        def time(self, v):
+            self._now = v
+    return TickingClock()
